@@ -15,6 +15,7 @@ import (
 	host "github.com/cosmos/ibc-go/v10/modules/core/24-host"
 
 	providertypes "github.com/cosmos/interchain-security/v7/x/ccv/provider/types"
+	ccvtypes "github.com/cosmos/interchain-security/v7/x/ccv/types"
 )
 
 // CInfo is what the harness remembers about a consumer it created.
@@ -154,7 +155,12 @@ func (w *World) bootLaunched() {
 		if w.Phase(ci.ID) != providertypes.CONSUMER_PHASE_LAUNCHED {
 			continue
 		}
-		c, err := w.BootConsumer(ci.ID, w.consumerProbes(ci.ID), nil)
+		var tweak ConsumerGenesisTweak
+		if w.consumerTweak != nil {
+			id := ci.ID
+			tweak = func(g *ccvtypes.ConsumerGenesisState) { w.consumerTweak(id, g) }
+		}
+		c, err := w.BootConsumer(ci.ID, w.consumerProbes(ci.ID), tweak)
 		if err != nil {
 			ci.BootFail = true
 			w.Violation("C19", "consumer-boot-failed", map[string]any{"consumer": ci.ID, "error": err.Error()})
@@ -267,6 +273,9 @@ func (w *World) Handshake(ci *CInfo) {
 	l.ConsChan, l.ProvChan = cc, pc
 	w.Op("handshake done %s cons=%s prov=%s", ci.ID, cc, pc)
 	w.Event("C17", "honest-handshake-completed")
+	if w.afterHandshake != nil {
+		w.afterHandshake(ci, l)
+	}
 }
 
 // LiveLinks returns the links of booted consumers in creation order.
